@@ -180,6 +180,19 @@ META["C20"] = {
     "level_note": "trusts reflection over the method set (additions are covered automatically), testing/synctest for blocking detection",
 }
 
+META["C18"] = {
+    "budget": {"quick": 25, "thorough": 600},
+    "rule": "one run = a source and a target machine (no relations, no vetoing handlers) piped with one of Bind / BindMany / BindErr / BindAny / BindReady / BindConnected / flat Add+Remove pipes, the target handed to the binder behind an am.Api proxy whose EvAdd/EvRemove/Set are scheduling points, 1..2 tasks issuing bursts of Add/Remove/Toggle (AddErr for BindErr) on the piped source states, Multi states in a quarter of the runs; non-trivial = every run; distinct = distinct event-log hashes",
+    "components": {"real": MACHINE_REAL + ["pkg/states/pipes"], "stub": ["network-machine targets are not exercised here (local targets only)"]},
+    "assumptions": [
+        "the target never vetoes (no handlers, no relations), as the statement requires",
+        "joint quiescence: both queues empty, no pipe goroutine parked, 5 s of fake time",
+    ],
+    "probes": [],
+    "level_text": "seeded search over toggle histories and over the release order of the goroutines the pipe handlers fork per event; at joint quiescence the target state is active iff the source state is (BindErr: add-only, BindAny: equal active sets) and no source mutation was canceled or blocked",
+    "level_note": "trusts testing/synctest; the proxy only adds scheduling points in front of the real target machine",
+}
+
 NOT_YET = "check not built yet in this session (planned, see DESIGN.md section 5)"
 NOT_APPLICABLE = {
     "C19": "no schedule, clock, fault or multi-party behaviour: a static well-formedness scan of schema literals plus an exhaustive breadth-first enumeration of reachable active sets, i.e. bounded model checking, not deterministic simulation (DESIGN.md section 6)",
